@@ -387,10 +387,10 @@ func rangeKeyOf(idx ssa.Value, base ssa.Value) bool {
 
 func init() {
 	register(&Rule{ID: "R6", Name: "IDX-SPACE", Floor: 150,
-		Text: "logical row numbers are int, physical positions are uint32 values read from an index.Int: (P) every element access on column storage ({i,f,b,e}column data, scolumn pointers, and slice parameters that receive them) is indexed by a position (element of an index.Int, a position parameter, tableEntry.firstPos, a phi of those) or by the key of a range over that same slice; (L) every access to an index.Int/index.Bool is indexed by an int that is not a converted position; (6a) every argument bound to an inferred position parameter is a position; (6e) no (converted) position is bound to an inferred logical-row parameter",
+		Text: "logical row numbers are int, physical positions are uint32 values read from an index.Int: (P) every element access on column storage ({i,f,b,e}column data, scolumn pointers, and slice parameters that receive them) is indexed by a position (element of an index.Int, a position parameter, tableEntry.firstPos, a phi of those) or by the key of a range over that same slice; (L) every access to an index.Int/index.Bool is indexed by an int that is not a converted position; (6a) every argument bound to an inferred position parameter is a position; (6e) no (converted) position is bound to an inferred logical-row parameter; (6f) two positions are never compared for order (<, <=, >, >=), only for identity",
 		Run:  runR6})
 	register(&Rule{ID: "R7", Name: "IDX-PROV", Floor: 10,
-		Text: "every uint32 written into an index.Int (element store, append, composite literal) or into tableEntry.firstPos is a position in the sense of R6: derived indexes contain only positions read from the parent index (frozen exceptions: index.NewAscending, QFrame.Append)",
+		Text: "every uint32 written into an index.Int (element store, append, composite literal) or into tableEntry.firstPos is a position in the sense of R6: derived indexes contain only positions read from the parent index (frozen exceptions: index.NewAscending, QFrame.Append); the identity index built by index.NewAscending is stored only into the index field of a new frame whose columns slice is allocated in the same function (qframe.New, Grouper.Aggregate) - never into a grouper or a frame that reuses existing columns",
 		Run:  runR7})
 }
 
@@ -406,7 +406,7 @@ func runR6(c *Ctx) {
 		c.undecided("anchor|"+m, "-", "storage field no longer resolves")
 	}
 	res := p.resolver()
-	nP, nL, nScan := 0, 0, 0
+	nP, nL, nScan, nEq := 0, 0, 0, 0
 	for _, fn := range p.Funcs {
 		fnm := fname(fn)
 		eachInstr(fn, func(in ssa.Instruction) {
@@ -438,6 +438,19 @@ func runR6(c *Ctx) {
 					}
 					nL++
 					c.okTrivial(key, p.instrPos(t), "indexed by an int row number")
+				}
+			case *ssa.BinOp:
+				// (6f) positions are identities: equality is meaningful, order is an accident of physical layout
+				switch t.Op {
+				case token.LSS, token.GTR, token.LEQ, token.GEQ:
+					if f.isP(stripConvInt(t.X)) && f.isP(stripConvInt(t.Y)) {
+						c.bad(fnm+"|P-order", p.instrPos(t), fmt.Sprintf("two physical positions are compared for order (%s %s %s): the outcome depends on where rows happen to be stored, so frames with equal content behave differently", describe(t.X), t.Op, describe(t.Y)))
+					}
+				case token.EQL, token.NEQ:
+					if f.isP(stripConvInt(t.X)) && f.isP(stripConvInt(t.Y)) {
+						nEq++
+						c.okTrivial(fnm+"|P-identity", p.instrPos(t), "positions compared for identity only")
+					}
 				}
 			case ssa.CallInstruction:
 				for _, callee := range res.callees(t) {
@@ -472,6 +485,7 @@ func runR6(c *Ctx) {
 	c.note("position_indexed_accesses", nP)
 	c.note("whole_storage_scans", nScan)
 	c.note("row_index_accesses", nL)
+	c.note("position_identity_comparisons", nEq)
 	var pp []string
 	for prm := range f.pParam {
 		pp = append(pp, fname(prm.Parent())+"."+prm.Name())
@@ -569,6 +583,50 @@ func runR7(c *Ctx) {
 					}
 				}
 			case ssa.CallInstruction:
+				if call, ok := t.(*ssa.Call); ok && isFuncNamed(calleeObj(call), rel("internal/index"), "", "NewAscending") && fn.Pkg.Pkg.Path() != rel("internal/index") {
+					// the identity index 0..n-1 is the index of a frame whose columns were all built here
+					key := fnm + "|identity index"
+					bad := ""
+					for _, r := range *call.Referrers() {
+						switch u := r.(type) {
+						case *ssa.DebugRef:
+						case *ssa.Store:
+							fa, ok := u.Addr.(*ssa.FieldAddr)
+							if !ok || u.Val != ssa.Value(call) || !isFrameType(deref(fa.X.Type())) || fieldNameAt(fa) != "index" {
+								bad = "it is stored somewhere else than in the index field of a new frame"
+								break
+							}
+							// the columns stored into the same frame value
+							okCols := false
+							if refs := fa.X.Referrers(); refs != nil {
+								for _, r2 := range *refs {
+									fa2, ok := r2.(*ssa.FieldAddr)
+									if !ok || fieldNameAt(fa2) != "columns" {
+										continue
+									}
+									for _, r3 := range *fa2.Referrers() {
+										if st, ok := r3.(*ssa.Store); ok && st.Addr == ssa.Value(fa2) {
+											okCols = freshSlice(st.Val, map[ssa.Value]bool{})
+											if !okCols {
+												bad = "the frame it indexes reuses existing columns (" + describe(st.Val) + "): their rows are addressed through the frame's own index, not 0..n-1"
+											}
+										}
+									}
+								}
+							}
+							if !okCols && bad == "" {
+								bad = "the frame it indexes has no freshly built columns"
+							}
+						default:
+							bad = "it is used as a row index of existing rows (" + r.String() + ")"
+						}
+					}
+					if bad == "" {
+						c.ok(key, p.instrPos(t), "indexes a frame whose columns are built in this function")
+					} else {
+						c.bad(key, p.instrPos(t), "index.NewAscending builds the identity index, valid only for freshly built columns: "+bad)
+					}
+				}
 				b := builtinName(t)
 				args := t.Common().Args
 				if b == "copy" && len(args) == 2 && isIntIndexType(stripSliceOps(args[0]).Type()) {
@@ -646,4 +704,59 @@ func singleDef(x ssa.Value) ssa.Value {
 		return val
 	}
 	return x
+}
+
+func fieldNameAt(fa *ssa.FieldAddr) string {
+	st, ok := deref(fa.X.Type()).Underlying().(*types.Struct)
+	if !ok {
+		return ""
+	}
+	return st.Field(fa.Field).Name()
+}
+
+// freshSlice: v is a slice allocated in this function (make, append to such, re-slice of such).
+func freshSlice(v ssa.Value, seen map[ssa.Value]bool) bool {
+	if seen[v] {
+		return true
+	}
+	seen[v] = true
+	switch t := v.(type) {
+	case *ssa.MakeSlice:
+		return true
+	case *ssa.Slice:
+		if al, ok := t.X.(*ssa.Alloc); ok {
+			_, isArr := deref(al.Type()).Underlying().(*types.Array)
+			return isArr
+		}
+		return freshSlice(t.X, seen)
+	case *ssa.Call:
+		if builtinName(t) == "append" && len(t.Call.Args) > 0 {
+			return freshSlice(t.Call.Args[0], seen)
+		}
+	case *ssa.Phi:
+		for _, e := range t.Edges {
+			if !freshSlice(e, seen) {
+				return false
+			}
+		}
+		return len(t.Edges) > 0
+	case *ssa.UnOp:
+		if t.Op == token.MUL {
+			if al, ok := t.X.(*ssa.Alloc); ok {
+				n := 0
+				for _, r := range *al.Referrers() {
+					if st, ok := r.(*ssa.Store); ok && st.Addr == ssa.Value(al) {
+						n++
+						if !freshSlice(st.Val, seen) {
+							return false
+						}
+					}
+				}
+				return n > 0
+			}
+		}
+	case *ssa.Const:
+		return t.IsNil()
+	}
+	return false
 }
